@@ -3,7 +3,7 @@ package node
 type FieldsMatcher struct {
 	expression string
 	reverse    bool
-	selector   PathMatcher
+	selector   *PathMatchExpression
 }
 
 // NewExcludeFieldsMatcher excludes fields that match pattern
@@ -28,7 +28,11 @@ func (self *FieldsMatcher) CheckContainerPreConstraints(r *ChildRequest) (bool, 
 	if r.IsNavigation() {
 		return true, nil
 	}
-	return self.selector.PathMatches(r.Base, r.Path) != self.reverse, nil
+	if self.reverse {
+		return !self.selector.PathMatches(r.Base, r.Path), nil
+	}
+	// containers on the way to a selected field need to be visited
+	return self.selector.PathLeadsTo(r.Base, r.Path), nil
 }
 
 func (self *FieldsMatcher) CheckFieldPreConstraints(r *FieldRequest, hnd *ValueHandle) (bool, error) {
